@@ -150,10 +150,15 @@ func (p c12) direct(c *core.Ctx) bool {
 }
 
 func (p c12) start(c *core.Ctx) {
-	g := world.NewG(c.Rng)
-	// a few plain components so that post-processor callbacks have subjects
-	for i := 0; i < 1+c.Rng.Intn(3); i++ {
-		g.AddRandomNode(world.TypesEagerPlain, 0.3)
+	// components (with cycles, so that early references are requested) + runners
+	sc := RandomGraph(c.Rng, GraphOpts{MinN: 1, MaxN: 6, Types: plainAny, PCycle: 0.7, Chords: 1, PUnnamed: 0.3})
+	g := &world.G{Rng: c.Rng, Sc: sc}
+	// one or two further, separate 2-cycles (created during the refresh when nothing pulls them in earlier)
+	for x := 0; x < 1+c.Rng.Intn(2); x++ {
+		u := g.AddRandomNode(plainAB, 0)
+		v := g.AddRandomNode(plainAB, 0)
+		g.EdgeByName(u, v, "")
+		g.EdgeByName(v, u, "")
 	}
 	nr := c.Rng.Intn(9)
 	for i := 0; i < nr; i++ {
@@ -161,15 +166,21 @@ func (p c12) start(c *core.Ctx) {
 		g.Sc.Nodes[k].Ord = ordPool[c.Rng.Intn(len(ordPool))]
 	}
 	g.ShuffleOrders()
-	sc := g.Sc
 	npp := c.Rng.Intn(9)
 	var extra []any
 	ppClass := map[string]part{}
+	withDeps := c.Rng.Intn(3) == 0
 	for k := 0; k < npp; k++ {
 		cl := c.Rng.Intn(4)
 		ord := ordPool[c.Rng.Intn(len(ordPool))]
 		name := fmt.Sprintf("pp%d", k)
-		extra = append(extra, world.NewPP(cl, name, ord))
+		if withDeps && cl < 3 && c.Rng.Intn(2) == 0 {
+			// a post-processor with an injection point of its own: what it needs is created while the
+			// chain is still being built
+			extra = append(extra, world.NewPPDep(cl, name, ord))
+		} else {
+			extra = append(extra, world.NewPP(cl, name, ord))
+		}
 		ppClass[name] = part{k, map[int]int{0: 2, 1: 1, 2: 0, 3: 2}[cl], ord}
 	}
 	c.Rng.Shuffle(len(extra), func(i, j int) { extra[i], extra[j] = extra[j], extra[i] })
@@ -218,17 +229,8 @@ func (p c12) start(c *core.Ctx) {
 	seenR := map[string]int{}
 	for _, e := range ev {
 		if e.Kind == "run" {
-			for i := range sc.Nodes {
-				if sc.Nodes[i].DisplayName() == e.Who {
-					ti := world.Palette[sc.Nodes[i].Type]
-					cl := 2
-					if ti.Ordered && ti.Priority {
-						cl = 0
-					} else if ti.Ordered {
-						cl = 1
-					}
-					rseq = append(rseq, part{i, cl, sc.Nodes[i].Ord})
-				}
+			if i, ok := nodeNamed(sc, e.Who); ok {
+				rseq = append(rseq, runnerPart(sc, i))
 			}
 			seenR[e.Who]++
 		}
@@ -243,22 +245,46 @@ func (p c12) start(c *core.Ctx) {
 		c.Fail("", "runner invocation order violates the contract: "+v, failDetail(sc, r, map[string]any{"sequence": fmt.Sprint(rseq)}))
 		return
 	}
-	// post-processors, per component and callback kind
+	// post-processors: the chain is complete once the last logging post-processor has itself been
+	// created; every component whose processing starts after that must see every participant exactly
+	// once per callback kind, in contract order (early-reference callbacks: all or none)
+	prepEnd := -1
+	for _, e := range ev {
+		if e.Kind == "after" && e.By == "" {
+			if _, isPP := ppClass[e.Who]; isPP && e.Seq > prepEnd {
+				prepEnd = e.Seq
+			}
+		}
+	}
+	startSeq := map[string]int{}
+	for _, e := range ev {
+		if e.Kind == "pp-before-inst" || e.Kind == "pp-after-inst" || (e.Kind == "before" && e.By == "") {
+			if _, seen := startSeq[e.Who]; !seen {
+				startSeq[e.Who] = e.Seq
+			}
+		}
+	}
 	perComp := map[string][]part{}
 	cnt := map[string]int{}
 	for _, e := range ev {
-		if e.Kind == "pp-before" || e.Kind == "pp-after" || e.Kind == "pp-properties" || e.Kind == "pp-after-inst" {
-			if _, isNode := nodeNamed(sc, e.Who); !isNode {
-				continue
-			}
-			key := e.Kind + "|" + e.Who
-			perComp[key] = append(perComp[key], ppClass[e.By])
-			cnt[key+"|"+e.By]++
+		switch e.Kind {
+		case "pp-before", "pp-after", "pp-properties", "pp-after-inst", "pp-before-inst", "pp-early":
+		default:
+			continue
 		}
+		if _, isNode := nodeNamed(sc, e.Who); !isNode {
+			continue
+		}
+		if st, ok := startSeq[e.Who]; !ok || st <= prepEnd {
+			continue // created while the chain was still being built
+		}
+		key := e.Kind + "|" + e.Who
+		perComp[key] = append(perComp[key], ppClass[e.By])
+		cnt[key+"|"+e.By]++
 	}
 	for key, seq := range perComp {
 		if len(seq) != npp {
-			c.Fail("", fmt.Sprintf("%s: %d callbacks for %d logging post-processors", key, len(seq), npp), failDetail(sc, r, nil))
+			c.Fail("", fmt.Sprintf("%s: %d callbacks for %d logging post-processors (a participant is missing or repeated)", key, len(seq), npp), failDetail(sc, r, map[string]any{"events": renderEvents(ev, 200)}))
 			return
 		}
 		if v := contractViolation(seq); v != "" {
@@ -273,10 +299,13 @@ func (p c12) start(c *core.Ctx) {
 		}
 	}
 	c.Count("callback_sequences_checked", len(perComp)+2)
+	if withDeps {
+		c.Count("starts_with_dependent_post_processors", 1)
+	}
 	if npp+nr+nl >= 6 {
-		c.Nontrivial(fmt.Sprintf("start:%v|%v|%v", lseq, rseq, ppClass))
+		c.Nontrivial(fmt.Sprintf("start:%v|%v|%v|%s", lseq, rseq, ppClass, sc.GraphSig()))
 		if c.WantSample() {
-			c.Sample(map[string]any{"kind": "start", "loaders_class_order": fmt.Sprint(lseq), "runners": fmt.Sprint(rseq), "post_processors": npp})
+			c.Sample(map[string]any{"kind": "start", "loaders_class_order": fmt.Sprint(lseq), "runners": fmt.Sprint(rseq), "post_processors": npp, "scenario": describeScenario(sc)})
 		}
 	}
 }
